@@ -123,6 +123,23 @@ func FaultTable() []FaultRow {
 		return true
 	}))
 	add("dead.BuilderAdd", true, deadOp("BuilderAdd", oneAdd))
+	// the unchecked accessors are documented to panic for a removed entity whose id was not recycled yet
+	staleOp := func(k string, fill func(g *Gen, op *Op) bool) func(g *Gen) *Op {
+		return func(g *Gen) *Op {
+			st, _ := g.deadHandles()
+			if len(st) == 0 {
+				return nil
+			}
+			op := &Op{K: k, E: entP(Pick(g.R, st)), Alt: true}
+			if !fill(g, op) {
+				return nil
+			}
+			return op
+		}
+	}
+	add("removed.GetUnchecked", true, staleOp("Get", func(g *Gen, op *Op) bool { op.ID = g.anyUsed(); return true }))
+	add("removed.HasUnchecked", true, staleOp("Has", func(g *Gen, op *Op) bool { op.ID = g.anyUsed(); return true }))
+	add("removed.RelGetUnchecked", true, staleOp("RelGet", relFill))
 
 	// ---- present / absent component
 	withPresentNonEmpty := func(g *Gen) (ecs.Entity, *MEnt, bool) {
